@@ -1584,6 +1584,41 @@ where
             5 => {
                 vars = *rng.pick(&vars_choices);
             }
+            6 | 7 if vars_choices.len() > 1 => {
+                // scripted: count with a, invalidate (gc or reordering), exactly ONE count with b, back to a.
+                // The epoch and the variable count change in the same call; the cache must forget both.
+                let a = vars;
+                let b = *rng.pick(&vars_choices.iter().copied().filter(|&v| v != a).collect::<Vec<_>>());
+                let all = cache.cache_all;
+                cache.cache_all = true;
+                let tail = |log: &Vec<String>| log[log.len().saturating_sub(12)..].join("; ");
+                for (i, (f, t)) in live.iter().enumerate().take(3) {
+                    log.push(format!("scripted: sat_count({t}, vars {a}) #{i}"));
+                    ok &= count_one::<K, N>(ctx, f, t, a, &mut cache, "cache-reuse", &|| format!("n={n} step {step}, history tail: {}", tail(&log)));
+                }
+                if reorder_ok && rng.bool() {
+                    let o = rng.perm(n as usize);
+                    set_order(&mref, &o);
+                    log.push(format!("scripted: set_var_order {o:?}"));
+                } else {
+                    let t = Tt::random_biased(n, rng);
+                    drop(build_shannon::<K>(&mref, &t));
+                    let removed = mref.with_manager_shared(|m| m.gc());
+                    log.push(format!("scripted: garbage + gc removed {removed}"));
+                }
+                let (f, t) = rng.pick(&live);
+                log.push(format!("scripted: ONE sat_count({t}, vars {b})"));
+                ok &= count_one::<K, N>(ctx, f, t, b, &mut cache, "cache-reuse-after-gc-and-vars-change", &|| format!("n={n} step {step}, history tail: {}", tail(&log)));
+                for (f, t) in live.iter() {
+                    log.push(format!("scripted: sat_count({t}, vars {a}) again"));
+                    ok &= count_one::<K, N>(ctx, f, t, a, &mut cache, "cache-reuse-after-gc-and-vars-change", &|| format!("n={n} step {step}, history tail: {}", tail(&log)));
+                }
+                ctx.count("scripted_epoch_and_vars_change", 1);
+                cache.cache_all = all;
+                last_vars = Some(a);
+                gc_since = false;
+                reorder_since = false;
+            }
             _ => {}
         }
         if live.is_empty() {
@@ -1592,6 +1627,9 @@ where
         // queries (the newest handles first after a gc: they own the recycled ids)
         let nq = rng.range(1, 4);
         for q in 0..nq {
+            if q > 0 && rng.chance(1, 3) {
+                vars = *rng.pick(&vars_choices);
+            }
             let i = if q == 0 && gc_since { live.len() - 1 } else { rng.usize(live.len()) };
             let (f, t) = &live[i];
             let had = !cache.map.is_empty();
